@@ -186,6 +186,14 @@ class _G(object):
             n = self.name('c')
             v = rng.choice([0, mask(width), rand_val(rng, width)])
             self.add_wire('C', width, n, val=v, sync=True)
+            if self.cfg.get('computed_const_prob') and not sync and \
+                    rng.random() < self.cfg['computed_const_prob']:
+                # a constant one fold away: the operand is ~c (a net with constant arguments
+                # only), so it becomes a Const only after a first constant-propagation pass
+                t = self.name('t')
+                self.add_wire('W', width, t, sync=False)
+                self.add_net('~', None, [n], [t])
+                return t
             return n
         cands = [a for a in self.avail if a[1] == width and (a[2] or not sync)]
         if cands and rng.random() < exact_prob:
